@@ -242,6 +242,8 @@ pub struct Qcow2DevParams {
     direct_io: bool,
     read_only: bool,
     backing: Option<bool>,
+    // how many images down the backing chain this device is
+    backing_depth: u8,
 }
 
 impl Qcow2DevParams {
@@ -259,6 +261,7 @@ impl Qcow2DevParams {
             read_only: ro,
             direct_io: dio,
             backing: None,
+            backing_depth: 0,
         }
     }
 
@@ -280,8 +283,14 @@ impl Qcow2DevParams {
 
     pub fn mark_backing_dev(&mut self, backing: Option<bool>) {
         self.backing = backing;
+        self.backing_depth = self.backing_depth.saturating_add(1);
 
         self.set_read_only(true);
+    }
+
+    /// Position in the backing chain (0 for the top image)
+    pub fn backing_depth(&self) -> u8 {
+        self.backing_depth
     }
 
     pub fn is_backing_dev(&self) -> bool {
